@@ -233,10 +233,65 @@ void body_throwing(int throw_at, int readers, int acq)
     delete lr;
 }
 
+#ifdef MODE_C14
+// "Two counters let a writer ignore readers that arrive after its flip": reader 1 holds a handle from
+// before the modification and releases once the writer is inside modify(); reader 2 takes a handle only
+// after the writer has switched the counting side (observed on the implementation's flag) and keeps it
+// until the writer has FINISHED.  The writer may only be delayed by reader 1.
+void body_late_reader()
+{
+    g_functor_ran = false;
+    hx::win_reset();
+    LR* lr = new LR(0);
+    {
+        Event r1_in, writer_done;
+        bool counting0 = lr->m_countingLeft.load();
+        std::vector<int> ids;
+        ids.push_back(spawn([lr, &r1_in] {
+            LR::shared_handle h = lr->lock_shared();
+            (void)hx::read_pair(*h, "reader 1");
+            r1_in.set();
+            await([] { return g_functor_ran; });
+            point();
+        }));
+        ids.push_back(spawn([lr, &r1_in, &writer_done] {
+            r1_in.wait();
+            lr->modify([](Pair& x) {
+                hx::WriteWin w(&x, "modify functor");
+                g_functor_ran = true;
+                ++x.a;
+                point();
+                ++x.b;
+            });
+            writer_done.set();
+        }));
+        ids.push_back(spawn([lr, counting0, &writer_done] {
+            await([lr, counting0] { return lr->m_countingLeft.load() != counting0; });
+            LR::shared_handle h = lr->lock_shared();
+            int v = hx::read_pair(*h, "reader 2 (arrived after the writer switched sides)");
+            MC_CHECK(v == 1, "stale-read", "a reader arriving after the flip observed %d", v);
+            writer_done.wait();  // deadlock detector: the writer must not wait for this handle
+        }));
+        for (int id : ids) join(id);
+    }
+    delete lr;
+}
+#endif
+
 void make_items(const Options& o, std::vector<Item>& items)
 {
     bool thorough = o.tier == "thorough";
     int nform = 0;
+#ifdef MODE_C14
+    {
+        Item it;
+        it.name = "lr_guarded<Pair> | reader 1 holds from before and releases once the writer is inside modify | writer: modify x1 | reader 2 "
+                  "arrives after the writer switched the counting side and holds until the writer has finished";
+        it.body = [] { body_late_reader(); };
+        it.bounds = hx::tier_bounds(o, 3, 6);
+        items.push_back(it);
+    }
+#endif
     for (int throw_at = 1; throw_at <= 2; throw_at++)
         for (int readers = 1; readers <= 2; readers++) {
             Item it;
